@@ -101,7 +101,7 @@ var specTiny = pbt.Register(&pbt.Spec[TinyCase]{
 		return TinyCase{Recv: rapid.Bool().Draw(t, "recv"), Calls: rapid.SampledFrom([]int{2000, 20000}).Draw(t, "calls"), Cap: rapid.IntRange(0, 2).Draw(t, "cap"),
 			Procs: rapid.SampledFrom([]int{1, 2, 4, 16}).Draw(t, "procs")}
 	},
-	Run: RunTiny, Quick: 10, Thorough: 200, Crashy: true, Retries: 20, CaseCPU: 120e9,
+	Run: RunTiny, Quick: 10, Thorough: 60, Crashy: true, Retries: 20, CaseCPU: 120e9,
 })
 
 func TestC19Tiny(t *testing.T) { pbt.Check(t, specTiny) }
